@@ -376,7 +376,8 @@ func checkEntry(e entry) {
 	// RawPath is set: when that byte is a hex digit, arguments whose escapes hold hex digits
 	hexFollow := false
 	for c := range follow {
-		if c >= '0' && c <= '9' || c >= 'A' && c <= 'F' || c >= 'a' && c <= 'f' {
+		// the router sees normalized escapes: upper-case hex digits only
+		if c >= '0' && c <= '9' || c >= 'A' && c <= 'F' {
 			hexFollow = true
 		}
 	}
@@ -1082,8 +1083,11 @@ func main() {
 		go func() {
 			defer wg.Done()
 			for e := range ch {
-				escaped, nonASCII := false, false
+				escaped, nonASCII, styled := false, false, false
 				for _, t := range e.templates {
+					if strings.Contains(t, "{l_") || strings.Contains(t, "{m_") {
+						styled = true
+					}
 					if strings.Contains(t, "%") {
 						escaped = true
 					}
@@ -1092,6 +1096,9 @@ func main() {
 					}
 				}
 				switch {
+				case styled:
+					// label / matrix parameters: generated and compiled, not driven
+					drv.Stat("route_sets_with_styled_parameters_compiled_only", 1)
 				case escaped:
 					checkEscaped(e)
 				case nonASCII:
